@@ -114,6 +114,7 @@ fn main() {
                         "random" => suite_parse::run_random_strings(&mut out, &cfg, seed, n),
                         "strings" => suite_parse::run_exhaustive_strings(&mut out, &cfg, n, shard, nshards),
                         "goalstrings" => suite_parse::run_exhaustive_goal_strings(&mut out, &cfg, n, shard, nshards),
+                        "listtokens" => suite_parse::run_exhaustive_list_tokens(&mut out, &cfg, n, shard, nshards),
                         "spellings" => suite_parse::run_spellings(&mut out, &cfg, seed, n),
                         "contexts" => suite_parse::run_contexts(&mut out, &cfg, seed, n),
                         "ctxstrings" => suite_parse::run_exhaustive_contexts(&mut out, &cfg, n, shard, nshards),
